@@ -552,7 +552,7 @@ def gen_map_node(rng: random.Random, force: str | None = None) -> dict:
     has_bcast = rng.random() < 0.6
     if has_bcast:
         params.append(["c", None])
-    if rng.random() < 0.5:
+    if rng.random() < 0.5 or force == "continue-fail":
         # two-step inner graph: `pre` produces an inner-graph output before `a` can fail
         inner_nodes.append(_fn_node("pre", [["x", None]], ["px"], {"b": "sum", "k": 0}))
         params = [["px", None]] + params[1:]
@@ -586,7 +586,7 @@ def gen_map_node(rng: random.Random, force: str | None = None) -> dict:
         gn["errMode"] = err = "raise"
     consumer = _fn_node("after", [[outs[0], None]], ["fin"], {"b": "tag", "t": "after"})
     outer = {"name": "g1", "nodes": [gn, consumer], "bound": []}
-    L = rng.randint(0, 4)
+    L = max(2, rng.randint(0, 4)) if force == "continue-fail" else rng.randint(0, 4)
     values = []
     for j, p in enumerate(mapped):
         ln = L if mode == "zip" and rng.random() < 0.9 else rng.randint(0, 3)
@@ -600,6 +600,16 @@ def gen_map_node(rng: random.Random, force: str | None = None) -> dict:
     c = {"program": [inner, outer], "values": values}
     if failing and (rng.random() < 0.5 or force == "continue-fail"):
         gn["errMode"] = "continue"          # failed items must leave None placeholders, nothing else
+    if force == "continue-fail" and body["b"] == "failIf":
+        # whatever the seed: one item fails AFTER `pre` completed for it, others do not
+        for v in values:
+            if v[0] == cur["x"] and isinstance(v[1], dict) and "l" in v[1]:
+                xs = v[1]["l"] if mode == "product" else v[1]["l"][:]
+                if len(xs) < 2 and mode == "product":
+                    xs += [body["k"] + 1, body["k"]]
+                if xs and body["k"] not in xs:
+                    xs[rng.randrange(len(xs))] = body["k"]
+                v[1]["l"] = xs
     if body["b"] == "failGe" and (rng.random() < 0.5 or force == "raise-multi") and force != "continue-fail":
         # several items fail, each with its own error: in raise mode the FIRST failing item (input order) decides, whatever finishes first
         gn["errMode"] = "raise"
